@@ -123,6 +123,15 @@ class Interp:
         self.callout(n["i"])
         self.w("s%d" % n["i"])
 
+    def n_sc(self, n, env):
+        # a @supports_caller Python function: pushes a caller frame, may raise, writes, pops the frame
+        self.active.append("supports-caller")
+        try:
+            self.callout(n["i"])
+        finally:
+            self.active.pop()
+        self.w("sc%d" % n["i"])
+
     def n_callerflag(self, n, env):
         # ${'C1' if caller else 'C0'}: a def called plainly has no caller; one invoked through <%call> has
         self.w("C1" if env["caller"] else "C0")
